@@ -36,6 +36,8 @@ pub enum Ins {
     W(usize, usize, u64),
     Jeq(usize, u64, usize),
     Fail(String),
+    /// reg := balance of the block beneficiary (through the facade)
+    Rb(usize),
 }
 
 #[derive(Clone, Debug)]
@@ -57,6 +59,7 @@ pub struct Scenario {
 
 #[derive(Clone, Debug)]
 pub struct TxSpec {
+    /// index of an externally owned account, or usize::MAX for the block beneficiary
     pub from: usize,
     /// `e<k>` for an externally owned account, `pc` for the driver (then `prog` selects the program)
     pub to: String,
@@ -99,6 +102,7 @@ impl Scenario {
                                 a[3].as_u64().unwrap() as usize,
                             ),
                             "fail" => Ins::Fail(a[1].as_str().unwrap().to_owned()),
+                            "rb" => Ins::Rb(a[1].as_u64().unwrap() as usize),
                             o => panic!("bad instruction {o}"),
                         }
                     })
@@ -112,7 +116,10 @@ impl Scenario {
             fault: v["fault"].as_object().map(|f| {
                 let key = f["key"].as_str().unwrap();
                 let raw = match locs.iter().position(|l| l == key) {
-                    Some(i) => format!("S:{:x}:{:x}", holder(), i),
+                    Some(i) => {
+                        let (a, k) = slot_of(&locs, i);
+                        format!("S:{a:x}:{k:x}")
+                    }
                     None => match key {
                         "ben" => format!("B:{:x}", account::MINER_ADDRESS),
                         "h" => format!("B:{:x}", holder()),
@@ -126,7 +133,7 @@ impl Scenario {
             txs: v["txs"].as_array().map(|l| {
                 l.iter()
                     .map(|t| TxSpec {
-                        from: t["from"].as_u64().unwrap() as usize,
+                        from: t["from"].as_u64().map_or(usize::MAX, |x| x as usize),
                         to: t["to"].as_str().unwrap_or("pc").to_owned(),
                         value: u256_of(&t["value"]),
                         nonce: t["nonce"].as_u64().unwrap_or(1),
@@ -202,12 +209,27 @@ pub fn holder() -> Address {
 pub fn driver() -> Address {
     Address::from(U160::from(990_002u64))
 }
+/// second storage holder: locations whose name starts with `q`
+pub fn holder2() -> Address {
+    Address::from(U160::from(990_003u64))
+}
+pub fn receiver() -> Address {
+    Address::from(U160::from(990_009u64))
+}
+/// (address, slot) of a model location: position among the locations of the same holder
+pub fn slot_of(locs: &[String], l: usize) -> (Address, U256) {
+    let q = locs[l].starts_with('q');
+    let idx = locs[..l].iter().filter(|n| n.starts_with('q') == q).count();
+    (if q { holder2() } else { holder() }, U256::from(idx))
+}
 
 /// Short names for the addresses a scenario uses (events carry raw hex).
 pub fn names(s: &Scenario) -> Vec<(String, String)> {
     let mut m = vec![
         (format!("{:x}", holder()), "h".to_owned()),
         (format!("{:x}", driver()), "pc".to_owned()),
+        (format!("{:x}", holder2()), "h2".to_owned()),
+        (format!("{:x}", receiver()), "rcv".to_owned()),
         (format!("{:x}", account::MINER_ADDRESS), "ben".to_owned()),
     ];
     for i in 0..(s.n + 6) {
@@ -221,11 +243,12 @@ pub fn loc_name(s: &Scenario, raw: &str) -> String {
     let parts: Vec<&str> = raw.split(':').collect();
     let nm = names(s);
     let addr = nm.iter().find(|(a, _)| a == parts[1]).map_or(parts[1].to_owned(), |(_, n)| n.clone());
-    if parts[0] == "S" && addr == "h" {
-        if let Ok(i) = usize::from_str_radix(parts[2], 16) &&
-            i < s.locs.len()
-        {
-            return s.locs[i].clone();
+    if parts[0] == "S" && (addr == "h" || addr == "h2") {
+        if let Ok(i) = usize::from_str_radix(parts[2], 16) {
+            let q = addr == "h2";
+            if let Some(name) = s.locs.iter().filter(|n| n.starts_with('q') == q).nth(i) {
+                return name.clone();
+            }
         }
     }
     match parts.len() {
@@ -236,7 +259,7 @@ pub fn loc_name(s: &Scenario, raw: &str) -> String {
 
 pub fn database(s: &Scenario) -> InMemoryDB {
     let eoas = s.txs.as_ref().map_or(s.n, |t| {
-        t.iter().flat_map(|x| [x.from + 1, x.to.strip_prefix('e').and_then(|k| k.parse::<usize>().ok()).map_or(0, |k| k + 1)]).max().unwrap_or(s.n).max(s.n)
+        t.iter().flat_map(|x| [if x.from == usize::MAX { 0 } else { x.from + 1 }, x.to.strip_prefix('e').and_then(|k| k.parse::<usize>().ok()).map_or(0, |k| k + 1)]).max().unwrap_or(s.n).max(s.n)
     });
     let mut accounts = account::mock_block_accounts(eoas);
     for (i, b) in &s.balances {
@@ -249,13 +272,46 @@ pub fn database(s: &Scenario) -> InMemoryDB {
             a.info.nonce = *n;
         }
     }
-    accounts.insert(
-        holder(),
-        PlainAccount {
-            info: AccountInfo { nonce: 1, code_hash: KECCAK_EMPTY, code: None, ..Default::default() },
-            storage: s.pre.iter().enumerate().map(|(i, v)| (U256::from(i), U256::from(*v))).collect(),
-        },
-    );
+    if s.raw["ben_absent"].as_bool() == Some(true) {
+        accounts.remove(&account::MINER_ADDRESS);
+    } else if let Some(b) = s.raw["ben_balance"].as_str() {
+        let bal = match b.strip_prefix("max-") {
+            Some(d) => U256::MAX - U256::from_str_radix(d, 10).unwrap(),
+            None => U256::from_str_radix(b, 10).unwrap(),
+        };
+        accounts.get_mut(&account::MINER_ADDRESS).unwrap().info.balance = bal;
+    }
+    let mut bytecodes: HashMap<B256, Bytecode> = HashMap::default();
+    let (code_hash, code, balance) = if s.raw["holder_code"].as_str() == Some("selfdestruct") {
+        let mut c = vec![0x73];
+        c.extend_from_slice(receiver().as_slice());
+        c.push(0xff);
+        let code = Bytecode::new_raw(c.into());
+        bytecodes.insert(code.hash_slow(), code.clone());
+        (code.hash_slow(), Some(code), U256::from(5))
+    } else {
+        (KECCAK_EMPTY, None, U256::ZERO)
+    };
+    for q in [false, true] {
+        let storage = s
+            .locs
+            .iter()
+            .enumerate()
+            .filter(|(_, n)| n.starts_with('q') == q)
+            .map(|(l, _)| (slot_of(&s.locs, l).1, U256::from(s.pre[l])))
+            .collect();
+        accounts.insert(
+            if q { holder2() } else { holder() },
+            PlainAccount {
+                info: if q {
+                    AccountInfo { nonce: 1, code_hash: KECCAK_EMPTY, code: None, ..Default::default() }
+                } else {
+                    AccountInfo { nonce: 1, balance, code_hash, code: code.clone(), ..Default::default() }
+                },
+                storage,
+            },
+        );
+    }
     // the driver address is an existing (non-empty) account, so that calling it touches nothing
     accounts.insert(
         driver(),
@@ -264,7 +320,7 @@ pub fn database(s: &Scenario) -> InMemoryDB {
             storage: Default::default(),
         },
     );
-    InMemoryDB::new(accounts, HashMap::default(), HashMap::default())
+    InMemoryDB::new(accounts, bytecodes, HashMap::default())
 }
 
 pub fn transactions(s: &Scenario) -> Vec<TxEnv> {
@@ -272,9 +328,11 @@ pub fn transactions(s: &Scenario) -> Vec<TxEnv> {
         return txs
             .iter()
             .map(|t| TxEnv {
-                caller: account::mock_eoa_address(t.from),
+                caller: if t.from == usize::MAX { account::MINER_ADDRESS } else { account::mock_eoa_address(t.from) },
                 kind: TxKind::Call(match t.to.strip_prefix('e').and_then(|k| k.parse::<usize>().ok()) {
                     Some(k) => account::mock_eoa_address(k),
+                    None if t.to == "ben" => account::MINER_ADDRESS,
+                    None if t.to == "h" => holder(),
                     None => driver(),
                 }),
                 data: Bytes::from(vec![t.prog]),
@@ -302,6 +360,7 @@ pub fn transactions(s: &Scenario) -> Vec<TxEnv> {
 /// The P-driver: interprets program `data[0]` through the journal-aware facade.
 pub fn driver_precompile(s: &Scenario) -> DynParallelPrecompile {
     let progs = s.progs.clone();
+    let locs = s.locs.clone();
     DynParallelPrecompile::new(PrecompileId::Custom("verif-driver".into()), move |input| {
         let reservoir = input.reservoir();
         let prog = &progs[input.data()[0] as usize];
@@ -310,17 +369,24 @@ pub fn driver_precompile(s: &Scenario) -> DynParallelPrecompile {
         while ip < prog.len() {
             match &prog[ip] {
                 Ins::R(l, r) => {
-                    let v = input.state().sload(holder(), U256::from(*l))?.data;
+                    let (a, k) = slot_of(&locs, *l);
+                    let v = input.state().sload(a, k)?.data;
                     regs[*r] = v.try_into().unwrap_or(u64::MAX);
                     ip += 1;
                 }
                 Ins::W(l, r, add) => {
                     let v = if *r == 0 { 0 } else { regs[*r] } + add;
-                    input.state().sstore(holder(), U256::from(*l), U256::from(v))?;
+                    let (a, k) = slot_of(&locs, *l);
+                    input.state().sstore(a, k, U256::from(v))?;
                     ip += 1;
                 }
                 Ins::Jeq(r, v, target) => {
                     ip = if regs[*r] == *v { *target - 1 } else { ip + 1 };
+                }
+                Ins::Rb(r) => {
+                    let v = input.state().balance(account::MINER_ADDRESS)?.data;
+                    regs[*r] = (v % U256::from(1_000_000_007u64)).try_into().unwrap_or(0);
+                    ip += 1;
                 }
                 Ins::Fail(kind) => {
                     return Err(ParallelPrecompileError::Fatal(PrecompileError::Fatal(format!(
@@ -367,6 +433,21 @@ where
     loc_value_opt(db, raw).unwrap_or_else(|| "unavailable".to_owned())
 }
 
+fn loc_value_mut<DB: revm::Database>(db: &mut DB, raw: &str) -> String
+where
+    DB::Error: std::fmt::Debug,
+{
+    let parts: Vec<&str> = raw.split(':').collect();
+    let addr: Address = parts[1].parse().unwrap_or_else(|_| format!("0x{}", parts[1]).parse().unwrap());
+    let v = match parts[0] {
+        "B" => db.basic(addr).ok().map(|i| digest::info(i.as_ref())),
+        "S" => db.storage(addr, U256::from_str_radix(parts[2], 16).unwrap()).ok().map(|v| format!("{v:x}")),
+        "C" => db.basic(addr).ok().map(|i| i.map_or("none".into(), |i| format!("code:{:x}", i.code_hash))),
+        _ => Some("none".into()),
+    };
+    v.unwrap_or_else(|| "unavailable".to_owned())
+}
+
 fn loc_value_opt<DB: DatabaseRef>(db: &DB, raw: &str) -> Option<String>
 where
     DB::Error: std::fmt::Debug,
@@ -403,8 +484,11 @@ pub fn reference_prefix(s: &Scenario, universe: &[String], with_fault: bool, lim
     let p = driver_precompile(s).to_alloy();
     evm.precompiles.apply_precompile(&driver(), move |_| Some(p));
     let mut evm = EthEvm::new(evm, false);
+    // The oracle is revm State's `Database` interface - the one execution itself reads through.
+    // (revm-database 15.0.2: `DatabaseRef::storage_ref` of State falls through to the backing
+    // database for a destroyed account, which is not what its own `Database::storage` serves.)
     let snapshot = |evm: &mut EthEvm<_, _, _>| -> BTreeMap<String, String> {
-        universe.iter().map(|l| (l.clone(), loc_value(evm.db_mut(), l))).collect()
+        universe.iter().map(|l| (l.clone(), loc_value_mut(evm.db_mut(), l))).collect()
     };
     let mut steps = Vec::new();
     let mut outcomes = Vec::new();
@@ -479,6 +563,8 @@ pub fn bundle_diff(left: &BundleState, right: &BundleState) -> Option<String> {
 }
 
 pub struct SchedOutcome {
+    /// what the returned ParallelState serves for each universe location (C10)
+    pub served: BTreeMap<String, String>,
     pub record: RunRecord,
     pub result: Result<(), (usize, String)>,
     pub outcomes: Vec<TxExecutionOutcome>,
@@ -487,7 +573,7 @@ pub struct SchedOutcome {
 
 /// Run the real scheduler on the scenario under the controller.
 pub fn run_scheduler(s: &Scenario, cfg: Config, workers: usize, force_sequential: bool,
-                     fatal: Arc<Mutex<Option<(Verdict, RunRecord)>>>) -> SchedOutcome {
+                     fatal: Arc<Mutex<Option<(Verdict, RunRecord)>>>, universe: &[String]) -> SchedOutcome {
     let ctl = Controller::new(cfg);
     let f2 = fatal.clone();
     ctl.on_fatal(move |v, rec| {
@@ -526,8 +612,10 @@ pub fn run_scheduler(s: &Scenario, cfg: Config, workers: usize, force_sequential
         )),
     };
     let (outcomes, mut state) = scheduler.take_result_and_state();
+    let served = universe.iter().filter_map(|l| loc_value_opt(&state, l).map(|v| (l.clone(), v))).collect();
     let bundle = state.parallel_take_bundle(BundleRetention::Reverts);
     SchedOutcome {
+        served,
         record: ctl.record(),
         result,
         outcomes,
@@ -634,7 +722,19 @@ pub fn monitors(s: &Scenario, reference: &Reference, o: &SchedOutcome) -> Vec<(S
             }
         }
     }
-    let _ = s;
+    // C10: every value readable through the returned state equals what revm's State serves
+    if s.fault.is_none() && o.result.is_ok() == reference.error.is_none() {
+        if let Some(last) = reference.states.last() {
+            for (l, have) in &o.served {
+                if let Some(want) = last.get(l) &&
+                    want != have &&
+                    !l.starts_with("R:")
+                {
+                    v.push(("C10".into(), format!("the returned state serves {have} for {} but revm State serves {want}", loc_name(s, l))));
+                }
+            }
+        }
+    }
     v
 }
 
